@@ -8,10 +8,11 @@ META = {'claimed': True,
                'function E: init2 establishes the stream invariant from any prior object content; every call of any size on either path preserves it and writes input XOR keystream bytes '
                'total..total+len-1 (C02_ctr_inv_stream); hence for every call sequence (sizes 0 included, < 2^64 bytes) output = data XOR E(nonce_be64||i_be64) in order (C02_ctr_stream_correct), '
                'independent of the partition and of which path each call took (C02_ctr_partition_independent), encrypting twice restores the input (C02_ctr_involutive), re-initialising restarts the '
-               'keystream (C02_ctr_reinit_restarts); end to end for the AES-NI build (C02_aesctr_aesni_is_ctr_of_fips197). 19 theorems, unbounded in key, nonce, data and partition. The software '
-               "build's block function is OpenSSL's: FIPS-197 is ASSUMED for it (C02_aesctr_portable_over_fips197_partial) and compared against the spec by the correspondence run of the "
-               'software-only configuration. In-place operation (aliasing) is exercised by the driver, not the model. Correspondence: both build configurations vs extracted model vs spec; keys '
-               '128/256, chunk scripts crossing the 16-byte routing threshold, white-box seek to high block indices (counter carry).',
+               'keystream (C02_ctr_reinit_restarts); end to end for the AES-NI build (C02_aesctr_aesni_is_ctr_of_fips197). The CTR bookkeeping arithmetic of both stream functions is regenerated from '
+               "the C text and evaluated with C integer semantics (see C03). 19 theorems, unbounded in key, nonce, data and partition. The software build's block function is OpenSSL's: FIPS-197 is "
+               'ASSUMED for it (C02_aesctr_portable_over_fips197_partial) and compared against the spec by the correspondence run of the software-only configuration. In-place operation (aliasing) is '
+               'exercised by the driver, not the model. Correspondence: both build configurations vs extracted model vs spec; keys 128/256, chunk scripts crossing the 16-byte routing threshold, '
+               'white-box seek to high block indices (counter carry).',
  'level_note': 'Trusted: Coq kernel + vm_compute; the instruction semantics of aesenc/aesenclast/aeskeygenassist/shuffle/xor in Accel/AesNi.v (each compared with the real instruction on this CPU by '
                'the C03 instruction sub-check); translator x_aes.py; OpenSSL AES_encrypt assumed FIPS-197 for the software configuration (checked by differential execution only); aliasing in-place '
                'not modelled. Print Assumptions: closed under the global context.',
